@@ -24,7 +24,7 @@ pub fn ref_checksum(data: &[u8]) -> u32 {
     sum
 }
 
-fn mk_pdu(template: &PDUHeader, direction: Direction, payload: PDUPayload) -> PDU {
+pub fn mk_pdu(template: &PDUHeader, direction: Direction, payload: PDUPayload) -> PDU {
     let pdu_type = match &payload {
         PDUPayload::FileData(_) => PDUType::FileData,
         PDUPayload::Directive(_) => PDUType::FileDirective,
